@@ -8,6 +8,8 @@
 //	OBS sub=<res>|recv=<id>:<path>:<same object>:<inner settlement>,…|A=<metrics>|close=<res>/<inner closes>|chan=<closed>|B=<metrics>
 //	REQ rt <kp> <ks> <km> <script> <outcomes> @ pub=<hex> sub=<hex>
 //	OBS settle=<a|n…>|pub=<res>:<n msgs>;…|inv=<n>|metrics=…|close=ok
+//	REQ ch <sub stack> <pub stack> <script> <n> @ sub=<hex> pub=<hex>      (received object handed to the publisher stack)
+//	OBS <res>;…|probe=<ok>/<err>/<empty>/<repub>|metrics=…|recv=<n>
 //
 // stack: layers outermost first, T<tag> transform, M metrics, D<allowNoDelay><generator> delay.
 // Everything after " @ " is data recorded from this execution (type names, clock readings with the window they were
@@ -342,6 +344,8 @@ func statRt(out *wh.Out, c rtCase, obs string) {
 			out.Count("rt.outcome.error")
 		case 'p':
 			out.Count("rt.outcome.panic")
+		case 't':
+			out.Count("rt.outcome.pass_through_consumed_message")
 		}
 	}
 	out.Add("rt.publish_failures", strings.Count(obs, "e:inner:"))
@@ -355,6 +359,11 @@ func genRt(out *wh.Out, a wh.Args, rng *wh.Rng) {
 			}
 			c := rtCase{kp: kp, ks: ks, km: 1, script: []bool{false, true, false}, outcomes: []string{"s0", "s1", "e", "p", "s2", "s1"}}
 			req, obs := runRt(c)
+			out.Case(req, obs)
+			statRt(out, c, obs)
+			// pass-through handlers: the consumed message object itself is published, alone and mixed with fresh outputs
+			c = rtCase{kp: kp, ks: ks, km: 1, script: []bool{false, false, true}, outcomes: []string{"t0-0", "t0-1", "t1-0", "s1", "t1-1", "p", "t0-0"}}
+			req, obs = runRt(c)
 			out.Case(req, obs)
 			statRt(out, c, obs)
 		}
@@ -372,11 +381,13 @@ func genRt(out *wh.Out, a wh.Args, rng *wh.Rng) {
 			c.km = 0 // middleware not registered: outside the property, model conformance only
 		}
 		for j, k := 0, rng.Intn(6); j < k; j++ {
-			switch rng.Intn(6) {
+			switch rng.Intn(8) {
 			case 0:
 				c.outcomes = append(c.outcomes, "e")
 			case 1:
 				c.outcomes = append(c.outcomes, "p")
+			case 2, 3:
+				c.outcomes = append(c.outcomes, "t"+wh.Itoa(rng.Intn(3))+"-"+wh.Itoa(rng.Intn(3)))
 			default:
 				c.outcomes = append(c.outcomes, "s"+wh.Itoa(rng.Intn(3)))
 			}
@@ -387,6 +398,50 @@ func genRt(out *wh.Out, a wh.Args, rng *wh.Rng) {
 		req, obs := runRt(c)
 		out.Case(req, obs)
 		statRt(out, c, obs)
+	}
+}
+
+func statCh(out *wh.Out, c chCase) {
+	out.Count("ch.cases")
+	if hasM(c.subStack) && hasM(c.pubStack) {
+		out.Count("ch.metrics_on_both_sides")
+	}
+	out.Add("ch.messages_received_then_published", c.n)
+}
+
+func genCh(out *wh.Out, a wh.Args, rng *wh.Rng) {
+	alpha := []layerSpec{{kind: 'T', tag: "a"}, {kind: 'M'}}
+	// every pair of stacks of depth <= 2 over {transform, metrics}
+	var stacks [][]layerSpec
+	enumStacks(alpha, 2, func(st []layerSpec) { stacks = append(stacks, st) })
+	for _, ss := range stacks {
+		for _, ps := range stacks {
+			if overBudget(out) {
+				return
+			}
+			c := chCase{subStack: ss, pubStack: ps, script: []bool{false, true}, n: 3}
+			out.Case(runCh(c))
+			statCh(out, c)
+		}
+	}
+	n := 60
+	if a.Thorough() {
+		n = 1500
+	}
+	for i := 0; i < n && !overBudget(out); i++ {
+		var c chCase
+		for d, k := 0, rng.Intn(4); d < k; d++ {
+			c.subStack = append(c.subStack, randLayer(rng, true))
+		}
+		for d, k := 0, rng.Intn(4); d < k; d++ {
+			c.pubStack = append(c.pubStack, randLayer(rng, true))
+		}
+		c.n = rng.Intn(5)
+		for j, k := 0, rng.Intn(5); j < k; j++ {
+			c.script = append(c.script, rng.Intn(3) == 0)
+		}
+		out.Case(runCh(c))
+		statCh(out, c)
 	}
 }
 
@@ -408,6 +463,8 @@ func replay(out *wh.Out, line string) {
 		out.Case(runSub(parseSub(f)))
 	case len(f) == 6 && f[0] == "rt":
 		out.Case(runRt(parseRt(f)))
+	case len(f) == 5 && f[0] == "ch":
+		out.Case(runCh(parseCh(f)))
 	default:
 		fmt.Fprintln(os.Stderr, "unknown request")
 		out.Case(line, "bad-replay")
@@ -449,4 +506,5 @@ func main() {
 	genPub(out, a, rng)
 	genSub(out, a, rng)
 	genRt(out, a, rng)
+	genCh(out, a, rng)
 }
